@@ -197,7 +197,8 @@ func (t *typeValidator) Validate(data interface{}) *Result {
 		return errorHelp.sErr(errors.InvalidType(t.Path, t.In, t.Format, format), t.Options.recycleResult)
 	}
 
-	if !(t.Type.Contains(numberType) || t.Type.Contains(integerType)) && t.Format != "" && (kind == reflect.String || kind == reflect.Slice) {
+	if (len(t.Type) == 0 || t.Type.Contains(stringType)) && t.Format != "" && (kind == reflect.String || (kind == reflect.Slice && schType == stringType)) {
+		// a formatted string may be carried by a string or by a slice of bytes
 		return emptyResult
 	}
 
